@@ -744,7 +744,7 @@ ASSUME = {
     'C07': [GOODC, ORACLE, 'full-move number + side to move < 2^25 (known finding fullmove_ge_2p25)'],
     'C08': [GOODC, KEYS, 'quiet oracle (no interruption) and plain go depth d for the exactness statements; full-move + depth < 2^24; no tree key equals 0 after position fen'],
     'C09': [GOODC, ORACLE, 'the hook abort point sits where the real flag is polled'],
-    'C10': [GOODC, KEYS, 'hypotheses parity_ok / no_dist2 on the key sequence for C10_window_all (chess facts, not proved)'],
+    'C10': [GOODC, KEYS],
     'C11': ['wf b; search part: legal_pos and full-move + depth < 2^20; full-move < 2^23 for mate scores (known finding fullmove_ge_2p23)'],
     'C12': ['clocks < 2^32 for acceptance; FenSpec.v is the reading of the FEN grammar'],
     'C13': [LEGAL, CLOCK],
